@@ -80,6 +80,19 @@ Definition m_max (args : list value) : mres :=
     | _ => if all_num l then MQ (loop_max (nums l) 0%Q) else MVal VNone
     end).
 
+(* MAX after proposed_fixes/C16-max-seed: max = fv when fv > max or idx == 0 *)
+Fixpoint loop_max_fx (l : list Q) (idx : Z) (max : Q) : Q :=
+  match l with
+  | [] => max
+  | fv :: r => loop_max_fx r (idx + 1) (if Qltb max fv || (idx =? 0) then fv else max)
+  end.
+Definition m_max_fx (args : list value) : mres :=
+  with_array args (fun l =>
+    match l with
+    | [] => MVal VNone
+    | _ => if all_num l then MQ (loop_max_fx (nums l) 0 0%Q) else MVal VNone
+    end).
+
 (* ---- SUM / AVERAGE / mean *)
 Definition loop_sum (l : list Q) : Q := fold_left Qplus l 0%Q.
 Definition m_sum (args : list value) : mres :=
